@@ -341,6 +341,51 @@ def wr4(p, res):
     return n
 
 
+# ------------------------------------------------------------------ WR-5
+WR5_VIEWS = ("to_mut", "to_ref", "deref", "deref_mut", "as_mut", "as_ref", "borrow", "borrow_mut")
+WR5_OK = {"at_mut", "zero_at", "to_mut", "deref_mut", "as_mut", "borrow_mut"}
+# functions that address the output by raw offset (column arithmetic inside; listed as undecided under WR-1/WR-2)
+WR5_RAW = {"convolution_by_const_apply": "block kernel, raw offsets", "convolution_apply_dft": "block kernel, raw offsets",
+           "convolution_pairwise_apply_dft": "block kernel, raw offsets", "vec_znx_lsh_assign": "in-place limb move through split_at_mut of the raw buffer",
+           "vec_znx_split_ring": "res is a slice of vectors"}
+
+
+def wr5(p, res):
+    """stray-write discipline: in a shape function whose output operand is paired with a column argument, every mutable use of that operand selects a
+    column (at_mut / zero_at), re-views it, or hands it to another shape function; whole-object mutators (zero, fill, raw_mut, data_mut, ...) touch the other columns"""
+    n = 0
+    for f, si in sorted(wr.shape_functions(p, SHAPE_PREFIXES), key=lambda x: x[0].uid):
+        if f.is_test() or si.out is None:
+            continue
+        out_l, out_c, out_n = si.out
+        flow = Flow(f, transparent=WR5_VIEWS)
+        n += 1
+        bad = None
+        for bi, t in f.calls():
+            if not t["a"]:
+                continue
+            a = t["a"][0]
+            if a[0] not in ("c", "m") or not f.local_ty(a[1][0]).get("r", "").startswith("&mut"):
+                continue
+            if not any(r[0] == "param" and r[1] == out_l for r in flow.op_roots(a)):
+                continue
+            d = f.callee_def(t) or {}
+            cn = d.get("n", "")
+            if cn in WR5_OK or d.get("u", "").startswith(("poulpy_cpu_ref::", "poulpy_cpu_avx::")):
+                continue
+            if f.name in WR5_RAW and cn in ("raw_mut", "index_mut", "iter_mut"):
+                continue
+            bad = (cn, t["l"])
+            break
+        if bad:
+            res.bad("WR-5", f.pretty, "whole-object-mutation:%s" % bad[0],
+                    "%s mutates its output operand `%s` through `%s`, which is not column-selective: columns other than `%s_col` are modified" % (f.pretty, out_n, bad[0], out_n),
+                    site=f.where(bad[1]))
+        else:
+            res.ok("WR-5", {"fn": f.pretty, "out": out_n} if n % 40 == 1 else None)
+    return n
+
+
 def run(res, tier):
     res.level = "other"
     res.explanation = ("Shape-level clauses of C11 on MIR of every HAL shape function of the reference and AVX crates (functions with an (X, X_col) operand pair): for overwrite-type "
@@ -351,6 +396,7 @@ def run(res, tier):
     res.rule("WR-1", "overwrite-type shape function: written limb ranges (direct, via for_each, or forwarded to another overwrite-type shape function) cover [0, res.size()) for every ordering of the size variables; conditional writes need another write for the same limb")
     res.rule("WR-2", "every at/at_mut on a view of operand X takes X_col as its column (polynomial identity, closures included)")
     res.rule("WR-3", "pointers from as_ptr() of read-only slice operands never become store destinations")
+    res.rule("WR-5", "every mutable use of a column-selected output operand is column-selective (at_mut / zero_at), a re-view, or a hand-over to another shape function; whole-object mutators are violations (five raw-offset functions listed by name)")
     res.rule("WR-4", "raw-slice kernels taking `limb_offset`: the zero fill of the result starts exactly one stride after the last explicitly addressed written limb (fft64 and ntt120 vector-matrix products)")
     res.rule("COL-1", "core noise-free operations write their result through HAL calls whose column is the variable of a range loop")
     res.assumptions = ["kernels write the whole limb slice they receive (C07-C09 territory)", "a conditional write whose guard is not a comparison of the limb index with a bound is assumed able to be false"]
@@ -369,6 +415,8 @@ def run(res, tier):
         res.floor("WR-3", "as_ptr sources on read-only operands", n3, 20, ref_min=2)
         nc = col1(p, res)
         res.floor("COL-1", "core noise-free operations", nc, 12)
+        n5 = wr5(p, res)
+        res.floor("WR-5", "shape functions with a column-selected output", n5, 150, ref_min=90)
         n4 = wr4(p, res)
         res.floor("WR-4", "offset kernels with a zero-filled tail", n4, 2)
         res.fn_count += n_ow + n2
